@@ -3,9 +3,13 @@ package main
 import (
 	"bytes"
 	"crypto/elliptic"
+	"crypto/sha512"
 	"encoding/hex"
 	"fmt"
+	"io"
 	"strings"
+
+	"golang.org/x/crypto/hkdf"
 
 	"github.com/cloudflare/pat-go/ecdsa"
 	"github.com/cloudflare/pat-go/tokens/type3"
@@ -100,6 +104,12 @@ func runC08(c *Ctx) {
 			if rep == 0 {
 				first = out
 			}
+			// the stated formula, computed outside the attester with x/crypto's HKDF
+			ikRef, _ := ecdsa.CreateKey(elliptic.P384(), ikBytes)
+			bp, _ := ecdsa.BlindPublicKeyWithContext(elliptic.P384(), &cl.sk.PublicKey, ikRef, t3ctx("IssuerBlind"))
+			ref := make([]byte, 48)
+			io.ReadFull(hkdf.New(sha512.New384, elliptic.MarshalCompressed(elliptic.P384(), bp.X, bp.Y), cl.pubEnc, []byte("IssuerOriginAlias")), ref)
+			c.Direct(out == "ok "+hxv(ref), "ID is not HKDF-SHA-384(salt = client key, ikm = client key blinded by the index key, info = IssuerOriginAlias)", in)
 			c.Direct(out == first, "ID differs between two requests of the same client for the same index key", in)
 		}
 		if first != "" {
